@@ -137,6 +137,10 @@ def rules(ctx):
     from .C12 import scans_are_loops, gap_guard, gap_operands, bisection_rules
     before = len(ctx.obligations)
     bisection_rules(ctx)
+    _b = len(ctx.obligations)
+    from . import formulas
+    formulas.tour_formulas(ctx, "R3")
+    ctx.obligations[_b:] = [o for o in ctx.obligations[_b:] if "reference-time" in o.id]
     scans_are_loops(ctx)
     gap_operands(ctx)
     gap_guard(ctx)
